@@ -227,7 +227,7 @@ fn main() {
              Non-trivial = the fault-free run makes >= 2 target calls; distinct = distinct (drawable, stack, parent kind).",
         );
         run.assume("a failing target call returns at entry without side effect (fault injection at the boundary)");
-        let n = run.tier(300_000u64, 6_000_000u64);
+        let n = run.tier(300_000u64, 20_000_000u64);
         run.generate("zoo-native-parent", n, false, 0.3, |ctx, idx, rng| {
             let mut r2 = rng.clone();
             if idx % 2 == 0 {
@@ -243,7 +243,7 @@ fn main() {
             let d = zoo::gen_any::<Rgb565>(rng, &GenCfg::SMALL);
             d.visit::<Rgb565, _>(&mut V { ctx, rng: &mut r2, native: false, convert: false });
         });
-        let nt = run.tier(100_000u64, 2_000_000u64);
+        let nt = run.tier(100_000u64, 8_000_000u64);
         run.generate("decorated-multiline-text", nt, false, 0.3, |ctx, idx, rng| {
             let mut r2 = rng.clone();
             let mut d = zoo::gen_text(rng, (1, 3));
@@ -258,7 +258,7 @@ fn main() {
             }
             d.visit::<Rgb565, _>(&mut V { ctx, rng: &mut r2, native: idx % 4 < 2, convert: false });
         });
-        let nc = run.tier(150_000u64, 3_000_000u64);
+        let nc = run.tier(150_000u64, 10_000_000u64);
         run.generate("color-converted", nc, false, 0.3, |ctx, _idx, rng| {
             let mut r2 = rng.clone();
             let d = zoo::gen_any::<BinaryColor>(rng, &GenCfg::SMALL);
